@@ -580,8 +580,24 @@ Record site := mkSite {
 Definition topic_site (s : site) : bool := String.eqb (site_req s) "StorageSetDeleteTopic".
 Definition wanted_call (s : site) : string :=
   ("DeleteTopicMetrics(" ++ site_cluster s ++ ", " ++ site_topic s ++ ")")%string.
+(* senders of StorageSetDeleteGroup outside the HTTP handler: storage's own deleteGroup deletes the group's series under the
+   request's cluster, so the request must name the CLUSTER (a cluster module is named after its cluster: module.name; a consumer
+   module reads cluster module.cluster and has a name of its own), and a DeleteConsumerMetrics call of the sender, if any, must be
+   about the request's group *)
+Definition group_site (s : site) : bool := String.eqb (site_req s) "StorageSetDeleteGroup".
+Definition group_call_ok (s : site) (call : string) : bool :=
+  if String.prefix "DeleteConsumerMetrics(" call
+  then existsb (fun cl => String.eqb call ("DeleteConsumerMetrics(" ++ cl ++ ", " ++ site_group s ++ ")"))
+               ["module.name"; "module.cluster"]%string
+  else true.
+Definition group_site_ok (s : site) : bool :=
+  (if String.prefix "cluster." (site_fn s) then String.eqb (site_cluster s) "module.name"
+   else if String.prefix "consumer." (site_fn s) then String.eqb (site_cluster s) "module.cluster"
+   else true) &&
+  negb (String.eqb (site_group s) "") && forallb (group_call_ok s) (site_calls s).
 Definition site_ok (s : site) : bool :=
-  if topic_site s then existsb (String.eqb (wanted_call s)) (site_calls s) else true.
+  if topic_site s then existsb (String.eqb (wanted_call s)) (site_calls s)
+  else if group_site s then group_site_ok s else true.
 Definition sites_ok (l : list site) : bool := existsb topic_site l && forallb site_ok l.
 
 (* the JSON keys the property's fields are served under (core/protocol/storage.go, evaluator.go) *)
